@@ -31,6 +31,7 @@ def main():
     tab = {}
     digests = {}
     attrs = {}
+    features = {}
     params = {}
     shapes = {}
     constants = {}
@@ -53,11 +54,12 @@ def main():
             tab[rel] = sorted(names)
             digests[rel] = {q: loader.fn_digest(n) for q, n in loader.function_table(t).items()}
             attrs[rel] = loader.attr_signatures(t)
+            features[rel] = {q: loader.fn_features(n) for q, n in loader.function_table(t).items() if q.count('.') >= 1}
             params[rel] = {q: [a.arg for a in n.args.posonlyargs + n.args.args + n.args.kwonlyargs] for q, n in loader.function_table(t).items()}
             shapes[rel] = {q: loader.fn_shape(n) for q, n in loader.function_table(t).items()}
             constants[rel] = loader.module_constants(t)
     out = os.path.join(os.path.dirname(os.path.dirname(os.path.abspath(__file__))), 'xdstat', 'known_functions.json')
-    json.dump({'functions': tab, 'digests': digests, 'attrs': attrs, 'constants': constants, 'shapes': shapes, 'params': params}, open(out, 'w'), indent=0, sort_keys=True)
+    json.dump({'functions': tab, 'digests': digests, 'attrs': attrs, 'constants': constants, 'shapes': shapes, 'params': params, 'features': features}, open(out, 'w'), indent=0, sort_keys=True)
     print('%d names in %d modules -> %s' % (sum(len(v) for v in tab.values()), len(tab), out))
 
 
